@@ -1,9 +1,94 @@
 import TaurexModel.Proto
+import TaurexModel.KTau
+import TaurexModel.Ops.C02
 
 namespace Taurex.Ops.C20
-open Taurex.Proto
+open Taurex.Proto Taurex.Emission Taurex.KTau
 
-/-- operations of the C20 model served by `driver_c20` (filled in by the C20 check) -/
-def ops : List Op := []
+/-- `sigma_xsec[layer][wn][g]` → per wavenumber `[layer][g]` -/
+def perWn (sig : List (List (List Float))) (nwn : Nat) : List (List (List Float)) :=
+  (List.range nwn).map (fun j => sig.map (fun layerRow => layerRow.getD j []))
+
+/-- `c20.trans nwn sigma[layer][wn][g] paths[l][k] dens ws` → per layer `l`, per wavenumber: `tau[l,wn]` after
+    `contribute_ktau` on a zeroed buffer -/
+def transOp (args : List String) : Option String :=
+  run (do
+    let nwn ← nat
+    let sig ← listOf (listOf (listOf flt))
+    let paths ← listOf (listOf flt)
+    let dens ← listOf flt
+    let ws ← listOf flt
+    let n := dens.length
+    let cols := perWn sig nwn
+    let out := (List.range n).map (fun l =>
+      cols.map (fun s3 => ktauRow s3 (paths.getD l []) dens ws n l 0))
+    pure (fList (fList fF) out)) args
+
+/-- `c20.transx nwn sigma[layer][wn] paths dens` → the cross-section counterpart (`contribute_tau`) -/
+def transxOp (args : List String) : Option String :=
+  run (do
+    let nwn ← nat
+    let sig ← listOf (listOf flt)
+    let paths ← listOf (listOf flt)
+    let dens ← listOf flt
+    let n := dens.length
+    let out := (List.range n).map (fun l =>
+      (List.range nwn).map (fun j => tauRowX (sig.map (fun r => r.getD j 0)) (paths.getD l []) dens n l 0))
+    pure (fList (fList fF) out)) args
+
+/-- `c20.depth rp rs ap dz trans[l][wn]` → `compute_absorption` per wavenumber -/
+def depthOp (args : List String) : Option String :=
+  run (do
+    let nwn ← nat
+    let rp ← flt
+    let rs ← flt
+    let ap ← listOf flt
+    let dz ← listOf flt
+    let tr ← listOf (listOf flt)
+    let out := (List.range nwn).map (fun j =>
+      depth rp rs ((List.range ap.length).map (fun l => (ap.getD l 0, dz.getD l 0, (tr.getD l []).getD j 0))))
+    pure (fList fF out)) args
+
+/-- `c20.transk taus ws` → `transtemp`, `-log(transtemp)` -/
+def transkOp (args : List String) : Option String :=
+  run (do
+    let taus ← listOf flt
+    let ws ← listOf flt
+    pure (fF (transK taus ws) ++ " " ++ fF (ktau taus ws))) args
+
+/-- `c20.emission consts npPi nus nonmol sigma[layer][wn][g] ws dz dens temps xs wts tstar rp rs` →
+    per wavenumber: intensity per angle, flux, eclipse ratio -/
+def emissionOp (args : List String) : Option String :=
+  run (do
+    let k ← Taurex.Ops.C02.pcP
+    let npPi ← flt
+    let nus ← listOf flt
+    let cs ← listOf (do
+      let kd ← Taurex.Ops.C02.kindP
+      let m ← listOf (listOf flt)
+      pure (kd, m))
+    let sig ← listOf (listOf (listOf flt))
+    let ws ← listOf flt
+    let dz ← listOf flt
+    let dens ← listOf flt
+    let temps ← listOf flt
+    let xs ← listOf flt
+    let wts ← listOf flt
+    let tstar ← flt
+    let rp ← flt
+    let rs ← flt
+    let cols := perWn sig nus.length
+    let out := (List.range nus.length).map (fun j =>
+      let nu := nus.getD j 0
+      let nonmol := cs.map (fun c => (c.1, c.2.map (fun row => row.getD j 0)))
+      let s3 := cols.getD j []
+      let is := xs.map (fun x => emissionK k nonmol s3 ws dz dens temps nu (muInvOf x))
+      let f := fluxOf npPi is xs wts
+      fList fF is ++ " " ++ fF f ++ " " ++ fF (eclipse f (planck k nu tstar) rp rs))
+    pure (fList id out)) args
+
+def ops : List Op :=
+  [("c20.trans", transOp), ("c20.transx", transxOp), ("c20.depth", depthOp), ("c20.transk", transkOp),
+   ("c20.emission", emissionOp)]
 
 end Taurex.Ops.C20
